@@ -123,6 +123,25 @@ def workload(seed):
         out['wall_clock_callstacks'] = list(pw.formatted_callstacks(io.BytesIO(data)))[:10]
     except Exception as x:
         out['wall_clock_traces'] = [f'<raised {type(x).__name__}: {x}>']
+    # the clock options without a time zone: whatever the tool prints then (raw ticks today) must not follow the host
+    pz = PyKdebugParser()
+    pz.color = False
+    pz.numer, pz.denom, pz.mach_absolute_time, pz.usecs_since_epoch = 125, 3, 0x100000000, 1600000000 * 10 ** 6
+    try:
+        out['clock_without_zone_traces'] = list(pz.formatted_traces(io.BytesIO(data)))[:40]
+        out['clock_without_zone_kevents'] = list(pz.formatted_kevents(io.BytesIO(data)))[:40]
+    except Exception as x:
+        out['clock_without_zone_traces'] = [f'<raised {type(x).__name__}: {x}>']
+    for missing in ('numer', 'denom', 'mach_absolute_time', 'usecs_since_epoch'):
+        pm = PyKdebugParser()
+        pm.color = False
+        pm.numer, pm.denom, pm.mach_absolute_time, pm.usecs_since_epoch = 125, 3, 0x100000000, 1600000000 * 10 ** 6
+        pm.timezone = timezone(timedelta(hours=5))
+        setattr(pm, missing, None)
+        try:
+            out[f'clock_without_{missing}'] = list(pm.formatted_traces(io.BytesIO(data)))[:10]
+        except Exception as x:
+            out[f'clock_without_{missing}'] = [f'<raised {type(x).__name__}: {x}>']
     import plistlib
     from vlib import logs
     strings = logs.Strings(rng)
